@@ -184,7 +184,7 @@ func Checks() map[string]*simcore.Check {
 			},
 			Components: simcore.Components{Real: realComponents, Stub: stubComponents},
 			Perturbed:  []string{"lookup add/remove worker goroutines", "interleavings between two KV gates of goroutines sharing memory", "map iteration order inside batches"},
-			Runs:       map[string]int{"quick": 1600, "thorough": 60000},
+			Runs:       map[string]int{"quick": 4000, "thorough": 60000},
 			Gen:        genC16, Decode: decodePlan, Run: runPlan, Shrink: shrinkPlan,
 			ProbeNames: []string{"flatten", "commit", "repeated-root", "empty-transition", "dropped-root-refused", "live-read", "journal-reopen-with-diff-layers", "disk-image-checked", "read-with-frozen-buffer", "read-with-live-buffer", "read-error-on-dropped-root"},
 		},
@@ -197,7 +197,7 @@ func Checks() map[string]*simcore.Check {
 			},
 			Components: simcore.Components{Real: realComponents, Stub: stubComponents},
 			Perturbed:  []string{"map iteration order inside batches and history encoding", "lookup workers"},
-			Runs:       map[string]int{"quick": 1000, "thorough": 30000},
+			Runs:       map[string]int{"quick": 2400, "thorough": 30000},
 			Gen:        genC17, Decode: decodePlan, Run: runPlan, Shrink: shrinkPlan,
 			ProbeNames: []string{"recover-done", "recover-refused", "recover-inside-buffer", "recover-across-buffer-boundary", "recover-on-disk", "recoverable-roots", "disk-image-checked", "history-tail-pruned"},
 		},
@@ -210,7 +210,7 @@ func Checks() map[string]*simcore.Check {
 			},
 			Components: simcore.Components{Real: append([]string{"triedb/pathdb historyIndexer (indexIniter, batchIndexer, indexSingle/unindexSingle, pruner), HistoricalStateReader, HistoricalNodeReader, stateHistoryReader/trienodeReader, index blocks"}, realComponents...), Stub: stubComponents},
 			Perturbed:  []string{"select among ready channels inside the indexer run loop", "map iteration order in batches"},
-			Runs:       map[string]int{"quick": 800, "thorough": 20000},
+			Runs:       map[string]int{"quick": 1600, "thorough": 20000},
 			Gen:        genC18, Decode: decodePlan, Run: runPlan, Shrink: shrinkPlan,
 			ProbeNames: []string{"historic-read-ok", "historic-node-read-ok", "historic-refused-unreadable-root", "historic-refused-index-incomplete", "indexer-idle", "history-tail-pruned", "recover-done", "journal-reopen"},
 		},
@@ -224,7 +224,7 @@ func Checks() map[string]*simcore.Check {
 			},
 			Components: simcore.Components{Real: append([]string{"triedb/pathdb loadLayers/loadJournal/repairHistory/truncateFromHead/Recover on materialised crash states", "core/rawdb resettable freezer open/repair (recompiled onto simos)"}, realComponents...), Stub: stubComponents},
 			Perturbed:  []string{"order of freezer table writes and batch contents (map iteration): cut positions shift between executions, replays fall back to full enumeration"},
-			Runs:       map[string]int{"quick": 160, "thorough": 2000},
+			Runs:       map[string]int{"quick": 320, "thorough": 2000},
 			Gen:        genC20, Decode: decodePlan, Run: runCrash, Shrink: shrinkPlan,
 			ProbeNames: []string{"journal-loaded-after-crash", "journal-absent-or-discarded-after-crash", "rollback-after-crash", "rebooted-nonempty", "rebooted-empty", "recover-done", "flatten"},
 		},
@@ -237,7 +237,7 @@ func Checks() map[string]*simcore.Check {
 			},
 			Components: simcore.Components{Real: append([]string{"triedb/pathdb fastIterator, binaryIterator, diff/disk account and storage iterators"}, realComponents...), Stub: stubComponents},
 			Perturbed:  []string{"map iteration order", "lookup workers"},
-			Runs:       map[string]int{"quick": 1400, "thorough": 50000},
+			Runs:       map[string]int{"quick": 4000, "thorough": 50000},
 			Gen:        genC22, Decode: decodePlan, Run: runPlan, Shrink: shrinkPlan,
 			ProbeNames: []string{"iterator-complete", "iterator-nonempty", "iterator-failed-on-stale-base", "flatten", "dropped-root-refused"},
 		},
